@@ -493,6 +493,9 @@ MOD_SPECS_EXACT = (
     + [f"swizzle {s}" for s in range(5)]
     + [f"dzaxial {q(lo)} {q(hi)}" for lo, hi in gen.DZ]
     + ["dscale", "sconv 0", "sconv 1", "sconv 2", "sconv 3", "sadd 2 1 0 -1"]
+    # uniform factors / exponents go through `Scale::splat` / `ExponentialCurve::splat` in the harness; natural exponents are
+    # exact in f32 on the value grid (at most six fractional bits after cubing)
+    + ["scale 2 2 2", "scale -1/2 -1/2 -1/2", "exp 2 2 2", "exp 1 2 3", "exp 3 1 2", "exp 1 1 1"]
 )
 
 
